@@ -12,6 +12,7 @@ import (
 	"strconv"
 	"strings"
 
+	"github.com/tidwall/tile38/verif/harness/ev"
 	"github.com/tidwall/tile38/verif/harness/gen"
 	"pgregory.net/rapid"
 )
@@ -689,34 +690,62 @@ func region(b []byte, offs []int, elems []Elem, p int) (idx int, proto, reg stri
 
 // ---- streams that end in a protocol error -------------------------------------
 
-// badFrames: malformed frames whose handling is a framing error of
-// readNextCommand (ReadMessages keeps the messages parsed before it in the same
-// read and returns them together with the error). Not in the list, on purpose:
-// a complete HTTP request WITHOUT a command ("GET / HTTP/1.1"), for which
-// ReadMessages returns (nil, errInvalidHTTP) and drops the same read's messages
-// (impl-mirrored, see notes).
-var badFrames = []struct{ raw, err string }{
-	{"*1\r\n$x\r\n", "Protocol error: invalid bulk length"},
-	{"*2\r\n$3\r\nGET\r\n$1x\r\n", "Protocol error: invalid bulk length"},
-	{"*x\r\n", "Protocol error: invalid multibulk length"},
-	{"*-3\r\n", "Protocol error: invalid multibulk length"},
-	{"*1\n", "Protocol error: invalid multibulk length"},
-	{"*1\r\n#4\r\n", "Protocol error: expected '$', got '#'"},
-	{"*1\r\n$3\r\nabcXY", "Protocol error: invalid bulk length"},
-	{"*2\r\n$4\r\nECHO\r\n$2\nab\r\n", "Protocol error: invalid bulk length"},
-	{"*1\r\n$-2\r\n", "Protocol error: invalid bulk length"},
-	{"*1\r\n$9223372036854775807\r\n", "Protocol error: invalid bulk length"},
-	{"SET k1 \"unbalanced\r\n", "Protocol error: unbalanced quotes in request"},
-	{"SET k1 a'b c\r\n", "Protocol error: unbalanced quotes in request"},
-	{"DEL 'k1'x a\r\n", "Protocol error: unbalanced quotes in request"},
-	{"$x SET\r\n", "Protocol error: invalid message"},
-	{"$-1 x\r\n", "Protocol error: invalid message"},
-	{"$3 SETXY", "Protocol error: invalid message"},
-	{"$9223372036854775807 x\r\n", "Protocol error: invalid bulk length"},
-	{"GET nopath HTTP/1.1\r\n\r\n", "invalid HTTP request"},
-	{"GET /a b HTTP/1.1\r\n\r\n", "invalid HTTP request"},
-	{"PUT /ping HTTP/1.1\r\n\r\n", "invalid HTTP request"},
-	{"GET /%zz HTTP/1.1\r\n\r\n", "invalid HTTP request"},
+// emptyHTTPID: a complete HTTP request WITHOUT a command used to make
+// ReadMessages return (nil, errInvalidHTTP), dropping the messages parsed before
+// it in the same read (repaired in f2e465a).
+const emptyHTTPID = "http-empty-request-drops-earlier-commands"
+
+type badFrame struct {
+	raw, err  string
+	emptyHTTP bool
+}
+
+// usableBadFrames leaves out the shapes of a finding that is listed as known.
+func usableBadFrames() ([]badFrame, int) {
+	if !ev.KnownActive(emptyHTTPID) {
+		return badFrames, 0
+	}
+	var out []badFrame
+	n := 0
+	for _, b := range badFrames {
+		if b.emptyHTTP {
+			n++
+			continue
+		}
+		out = append(out, b)
+	}
+	return out, n
+}
+
+// badFrames: malformed frames; ReadMessages must deliver the messages parsed
+// before one of them in the same read and return them together with the error.
+var badFrames = []badFrame{
+	{"GET / HTTP/1.1\r\n\r\n", "invalid HTTP request", true},
+	{"POST / HTTP/1.1\r\nContent-Length: 0\r\n\r\n", "invalid HTTP request", true},
+	{"GET /%20 HTTP/1.1\r\nHost: x\r\n\r\n", "invalid HTTP request", true},
+	{"GET /+ HTTP/1.1\r\n\r\n", "invalid HTTP request", true},
+	{"POST /%20+ HTTP/1.1\r\nContent-Length: 2\r\n\r\n  ", "invalid HTTP request", true},
+	{"*1\r\n$x\r\n", "Protocol error: invalid bulk length", false},
+	{"*2\r\n$3\r\nGET\r\n$1x\r\n", "Protocol error: invalid bulk length", false},
+	{"*x\r\n", "Protocol error: invalid multibulk length", false},
+	{"*-3\r\n", "Protocol error: invalid multibulk length", false},
+	{"*1\n", "Protocol error: invalid multibulk length", false},
+	{"*1\r\n#4\r\n", "Protocol error: expected '$', got '#'", false},
+	{"*1\r\n$3\r\nabcXY", "Protocol error: invalid bulk length", false},
+	{"*2\r\n$4\r\nECHO\r\n$2\nab\r\n", "Protocol error: invalid bulk length", false},
+	{"*1\r\n$-2\r\n", "Protocol error: invalid bulk length", false},
+	{"*1\r\n$9223372036854775807\r\n", "Protocol error: invalid bulk length", false},
+	{"SET k1 \"unbalanced\r\n", "Protocol error: unbalanced quotes in request", false},
+	{"SET k1 a'b c\r\n", "Protocol error: unbalanced quotes in request", false},
+	{"DEL 'k1'x a\r\n", "Protocol error: unbalanced quotes in request", false},
+	{"$x SET\r\n", "Protocol error: invalid message", false},
+	{"$-1 x\r\n", "Protocol error: invalid message", false},
+	{"$3 SETXY", "Protocol error: invalid message", false},
+	{"$9223372036854775807 x\r\n", "Protocol error: invalid bulk length", false},
+	{"GET nopath HTTP/1.1\r\n\r\n", "invalid HTTP request", false},
+	{"GET /a b HTTP/1.1\r\n\r\n", "invalid HTTP request", false},
+	{"PUT /ping HTTP/1.1\r\n\r\n", "invalid HTTP request", false},
+	{"GET /%zz HTTP/1.1\r\n\r\n", "invalid HTTP request", false},
 }
 
 var trailers = []string{"", "", "*1\r\n$4\r\nPING\r\n", "PING\r\n", "garbage", "\r\n", "*1\r\n$4\r\nPI"}
@@ -737,7 +766,8 @@ func drawErrStream(t *rapid.T, o streamOpts, maxPrefix int, trail bool) Stream {
 		at := rapid.IntRange(0, len(s.Elems)).Draw(t, "writeat")
 		s.Elems = append(s.Elems[:at], append([]Elem{w}, s.Elems[at:]...)...)
 	}
-	bf := rapid.SampledFrom(badFrames).Draw(t, "bad")
+	frames, _ := usableBadFrames()
+	bf := rapid.SampledFrom(frames).Draw(t, "bad")
 	s.Elems = append(s.Elems, Elem{Proto: "bad", Raw: bf.raw, Err: bf.err})
 	if trail {
 		if tr := rapid.SampledFrom(trailers).Draw(t, "trail"); tr != "" {
